@@ -199,13 +199,20 @@ def run_harness(prop_id, tier, seed, extra=None, timeout=3000):
     outp = os.path.join(OUT, "harness", f"{prop_id}.json")
     if os.path.exists(outp):
         os.remove(outp)
+    # a private bytecode cache per run: never reuse a .pyc compiled from another version of /repo
+    import shutil
+    import tempfile
+
+    pyc = tempfile.mkdtemp(prefix="pyc-", dir=OUT)
     env = {"PYTHONPATH": REPO + os.pathsep + VERIF, "VERIF_REPO": REPO, "MPLBACKEND": "Agg",
-           "OMP_NUM_THREADS": "4", "OPENBLAS_NUM_THREADS": "4"}
+           "OMP_NUM_THREADS": "4", "OPENBLAS_NUM_THREADS": "4", "PYTHONPYCACHEPREFIX": pyc}
     cmd = [VENV_PY, "-m", f"tools.harness.{prop_id}", "--tier", tier, "--seed", str(seed), "--out", outp] + (extra or [])
     try:
         rc, out, err = sh(cmd, cwd=VERIF, env=env, timeout=timeout)
     except subprocess.TimeoutExpired:
         raise ToolFailure(f"harness {prop_id} timed out")
+    finally:
+        shutil.rmtree(pyc, ignore_errors=True)
     if not os.path.exists(outp):
         raise ToolFailure(f"harness {prop_id} crashed (rc={rc}):\n{out[-3000:]}\n{err[-6000:]}")
     with open(outp) as fh:
